@@ -156,3 +156,41 @@ func compilerKey(out string) string {
 func isIdentByte(c byte) bool {
 	return c == '_' || c >= '0' && c <= '9' || c >= 'a' && c <= 'z' || c >= 'A' && c <= 'Z'
 }
+
+// manyImportsCfgs: sixteen services over sixteen distinct packages; the role of the k-th package rotates with shift:
+// constructor only (the package is used by the normal output and by nothing in the stub), constructor + type + getter,
+// type only + getter, value only. With the template's own imports this passes import number 0x10.
+func manyImportsCfgs() []*Cfg {
+	var out []*Cfg
+	for _, aliases := range []bool{false, true} {
+		for shift := 0; shift < 4; shift++ {
+			cfg := &Cfg{Meta: &Meta{Pkg: P("gen")}}
+			pkgs := append([][2]string{{"fx/pk", "pk"}, {"fx/pk2", "pk2"}}, FxManyPackages...)
+			for k, p := range pkgs {
+				ref := `"` + p[0] + `"`
+				if aliases {
+					ref = "al" + p[1]
+					cfg.Meta.Imports = append(cfg.Meta.Imports, KV{"al" + p[1], p[0]})
+				}
+				s := Service{Name: fmt.Sprintf("s%02d", k)}
+				switch (k + shift) % 4 {
+				case 0:
+					s.Constructor = P(ref + ".New")
+				case 1:
+					s.Constructor = P(ref + ".New1")
+					s.Type = P("*" + ref + ".Obj")
+					s.Getter = P(fmt.Sprintf("GetS%02d", k))
+				case 2:
+					s.Type = P(ref + ".Val")
+					s.Getter = P(fmt.Sprintf("GetS%02d", k))
+				case 3:
+					s.Value = P(ref + ".Var")
+				}
+				cfg.Services = append(cfg.Services, s)
+			}
+			cfg.Params = []Param{{"p", `%env("MANY")%`}}
+			out = append(out, cfg)
+		}
+	}
+	return out
+}
